@@ -846,7 +846,7 @@ def find_flip(run, i, spec, rng, trials=600):
                 pass
             elif n.startswith('tp'):
                 if trial > trials // 2:
-                    env[n] = base[n] * rng.uniform(0.7, 1.3) if base[n] * 1.3 < 1 or not n.startswith('tp') else base[n]
+                    env[n] = base[n] * rng.uniform(0.7, 1.3)  # (in_domain() below filters)
             elif trial > trials // 3:
                 env[n] = base[n] * rng.uniform(0.5, 1.6)
         groups = {}
@@ -890,6 +890,16 @@ def chain_task(task, tr):
     for okind, _ in spec['ops']:
         cls = getattr(opmod, OPCLS[okind])
         tr.fn(cls._step, cls.set_adaptable_parameter, cls.from_json)
+    if not spec['target'].startswith('uf'):
+        from torchtree.core.parameter import CatParameter, TransformedParameter
+        from torchtree.distributions.distributions import Distribution
+        from torchtree.distributions.joint_distribution import JointDistributionModel
+
+        tr.fn(Distribution.log_prob, Distribution.from_json, JointDistributionModel.log_prob)
+        if spec['target'] == 'cat':
+            tr.fn(CatParameter.update, CatParameter.handle_parameter_changed)
+        if spec['target'] == 'exptr':
+            tr.fn(TransformedParameter.__call__, TransformedParameter.handle_parameter_changed, TransformedParameter._apply_transform)
     tr.stubs |= set(Stubs.LIST)
     runs = {}
     order = []
@@ -994,6 +1004,11 @@ def chain_task(task, tr):
                 if ck in proved_abs:
                     continue
                 hy = list(g['hyps'])
+                # the generalised statement must not be vacuous: its hypotheses are satisfiable
+                st0, _, _ = prove(d, hy, d.FALSE, timeout=20, tr=tr, label='hypotheses consistent')
+                if st0 == 'proved':
+                    tr.inconc(f'{label}: hypotheses of "{g["label"]}" are inconsistent (harness error)')
+                    continue
             else:
                 hy = full + list(g['extra'])
             st, r, _ = prove(d, hy, node, timeout=30, get_values=varids, tr=tr, label=g['label'])
@@ -1359,6 +1374,10 @@ def tune_task(task, tr):
         tr.sample({'case': label, 'new_tuning_parameter': d.to_str(p1, 7), 'goals': [g[1] for g in goals]})
         tr.bounds['tune'] = 'one tune()/learn() call from a symbolic tuning parameter and acceptance probability; adapt_count in {0, 3, symbolic >= 0}'
         varids = list(V.values())
+        st0, _, _ = prove(d, dom + pcs + hy + ax, d.FALSE, timeout=20, tr=tr, label='hypotheses consistent')
+        if st0 == 'proved':
+            tr.inconc(f'{label}: domain, path conditions and axiom instances are inconsistent (harness error)')
+            return
         for which, text, node in goals:
             st, r, _ = prove(d, dom + pcs + hy + ax, node, timeout=40, get_values=varids, tr=tr, label=text)
             if st == 'proved':
